@@ -215,6 +215,8 @@ def model_values(t, res):
     if s['kind'] == 'ecat':
         m = int(np.prod(s['shape'][:3]))
         e = (e // (m + 3)) * m + e % (m + 3)          # model record stride m + gap(3) -> concatenated frames
+    if 'model_full' in s:         # bit-exact targets: values come from the Flocq model of the arithmetic (ModelS.v)
+        return ('ok', shape, s['model_full'][e])
     if s['slopes'] is None:
         if len(f) and not np.all(f == (-1 if s['kind'] == 'afni' else 0)):
             return ('ok', shape, None)
@@ -248,6 +250,8 @@ def check_full(chk, t, cfg, p, full):
     chk.count(key=('full', t.name, str(cfg)), tag='asarray:' + s['kind'])
     zero = int(np.prod(s['shape'])) == 0
     ok = full.shape == tuple(s['shape']) and np.array_equal(full, exp) and tuple(p.shape) == tuple(s['shape'])
+    if 'model_full' in s:
+        ok = ok and L.same_bits(full, exp)
     if not ok:
         C['full_viol'] = C.get('full_viol', 0) + 1
         if C['full_viol'] > 3:
@@ -264,7 +268,7 @@ def history_check(chk, t, cfg, p, full):
     """convert, EDIT THE RESULT IN PLACE (when it is writeable), convert again: every conversion and every proxy[ix]
     must still be the independent decode of the file, and no two conversions may hand out the same object"""
     s = t.spec
-    if int(np.prod(s['shape'])) == 0:
+    if int(np.prod(s['shape'])) == 0 or 'model_full' in s:      # bit-exact targets have their own dtype= comparison (G9)
         return True
     exp = np.asarray(t.exp).reshape(s['shape'], order=s['order'])
     why = []
@@ -375,7 +379,7 @@ class Runner:
                 pred = f'shape {got.shape} != {want.shape}'
             elif native(got).dtype != native(want).dtype:
                 pred = f'dtype {got.dtype} != {want.dtype} of np.asarray(proxy)[ix]'
-            elif native(got).tobytes() != native(want).tobytes():
+            elif not L.same_bits(got, want):
                 pred = 'values of proxy[ix] differ from np.asarray(proxy)[ix]'
         else:
             chk.refusal(err_enum(g_err))
@@ -414,7 +418,7 @@ class Runner:
                     dis = (f'shape {mv[1]}', f'shape {got.shape}')
                 else:
                     flat = np.asarray(got).ravel(order=t.spec['order'])
-                    if not np.array_equal(flat, mv[2]):
+                    if not (L.same_bits(flat, mv[2]) if 'model_full' in t.spec else np.array_equal(flat, mv[2])):
                         dis = ('values ' + str(np.asarray(mv[2])[:8].tolist()), 'values ' + str(flat[:8].tolist()))
             if dis:
                 ncorr += 1
@@ -783,6 +787,9 @@ def _run(chk, R, W, rng, nib, EcatImage):
     # ---------------- G7: CIFTI-2 reshaped proxy and ArrayProxy.reshape
     run_reshape(chk, R, W, rng, nib, targets)
 
+    # ---------------- G9: bit-exact scaling with arbitrary (non-dyadic) factors
+    run_bitexact(chk, R, W, rng, nib, targets)
+
     # ---------------- G8: zero-size images (regression of S-C03b: shape kept without memmap)
     for rep, shape in enumerate([(0, 3, 2), (2, 0, 3), (2, 3, 0)]):
         base = os.path.join(W, f'zero_{rep}')
@@ -848,8 +855,17 @@ UNPROVED = [
     'mmap-independence of np.asarray(proxy) for a RANK-0 proxy (shape ()): REFUTED (C03_mmap_rank0_refuted; array_from_file '
     'keeps its len(shape)==0 early return); no image format yields rank 0, proved for rank >= 1 incl. zero-length axes as '
     'C03_mmap_independent_partial',
-    'element arithmetic (float32/float64 promotion, rounding of raw*slope+inter, MINC clip, apply_read_scaling\'s (1,0) '
-    'shortcut) is abstract (`scale`): C02; the harness compares values with exact dyadic factors only',
+    'MINC at the bit level: modelled and compared bit for bit for INTEGER images with float64 image-min/-max and valid_range '
+    '(ModelS.minc_elem: clip, slope=(max-min)/(dmax-dmin), *=, +=); float-typed MINC images (returned unscaled) and float32 '
+    'image-min/-max variables are not; the index-level MINC theorem keeps the abstract `scale`, and the bit-level theorem '
+    'C03_scaled_partial_read_bitexact is stated for the generic ArrayProxy (the other proxies\' element formulas afni_elem / '
+    'parrec_elem / ecat_elem / minc_elem are instances of the abstract `scale` of their index-level theorems, tied by the '
+    'bit-level correspondence, not restated as separate theorems)',
+    'non-finite scale factors (NaN/inf slope or intercept: the headers map them to "no scaling" before the proxy sees them), '
+    'requested dtypes other than float32/float64 (np.asarray(proxy, dtype=int...)), float16 and longdouble ON-DISK dtypes, and '
+    'NaN payload/sign bits of results are outside the bit-level model and its correspondence (raw float data are finite)',
+    'the decoding of an element\'s bytes to its value (`decode` in C03_scaled_partial_read_bitexact) is any function: byte order and '
+    'two\'s complement are C10\'s subject; the harness decodes with NumPy',
     'that the openers (gzip/bz2/zstd/indexed_gzip, keep_file_open policies, mmap) satisfy the reader contract reader_ok is an '
     'oracle premise, exercised by the configuration grid, not proved; locking is C14',
     'MINC: netCDF / h5py decoding and h5py\'s own slicing (with the fall-back to slicing the whole array) are the np_index '
@@ -979,6 +995,319 @@ def run_reshape(chk, R, W, rng, nib, targets):
                 chk.violation('correspondence', case=[l for l in lines if l.startswith(cid + ' ')][0], model_output=mod.get(cid),
                               impl_output=e, predicate='ap_reshape model and ArrayProxy.reshape disagree', found_input=False,
                               theorem='correspondence C03/Model.v ap_reshape <-> ArrayProxy.reshape')
+
+
+def rand_factor(rng, kind):
+    """a finite, generally non-dyadic scale factor as the header / caller hands it over: Python float (float64),
+    np.float32 or np.float64; a few structured values (1, 0, tiny, huge)"""
+    r = rng.random()
+    if r < 0.70:
+        v = rng.choice([-1, 1, 1, 1]) * 10 ** rng.uniform(-6, 6) * rng.uniform(0.5, 1.5)
+    elif r < 0.78:
+        v = 1.0
+    elif r < 0.86:
+        v = 0.0
+    elif r < 0.90:
+        v = rng.choice([1e-50, 3e-42, 1.0000001, 0.99999994, -0.0])
+    elif r < 0.96:
+        v = rng.choice([3e38, 1.7e38, 2.5e36, 1e300, 1.2e308, 5e304])
+    else:
+        v = float(rng.randrange(-1000, 1000))
+    with np.errstate(over='ignore'):
+        if kind == 'f32':
+            x = np.float32(v)
+            return x if np.isfinite(x) else np.float32(3e38)
+        if kind == 'f64':
+            return np.float64(v)
+        if kind == 'py32':                     # Python float holding a float32-representable value (NIfTI-1 fields)
+            x = np.float32(v)
+            return float(x if np.isfinite(x) else np.float32(3e38))
+    return float(v)
+
+
+def rand_raw(rng, dt, n):
+    dt = np.dtype(dt)
+    if dt.kind in 'iu':
+        ii = np.iinfo(dt)
+        vals = [ii.min, ii.max, 0, 1, ii.max - 1] + [rng.randrange(ii.min, ii.max + 1) for _ in range(n)]
+        return np.array(vals[:n] if n <= 5 else vals[:5] + vals[5:n], dtype=dt)
+    w = dt.itemsize * 8
+    out = []
+    while len(out) < n:
+        bits = rng.getrandbits(w)
+        v = np.array([bits], dtype='u%d' % dt.itemsize).view(dt.newbyteorder('='))[0]
+        if np.isfinite(v):
+            out.append(v)
+    out[:3] = [dt.type(0.0), dt.type(-0.0), dt.type(1.0)][:min(3, n)]
+    return np.array(out, dtype=dt.newbyteorder('='))
+
+
+def scl_line(cid, disk_dt, slope, inter, req, raw):
+    ks, ki = L.fid_of(slope), L.fid_of(inter)
+    toks = ' '.join(L.val_tok(v, disk_dt) for v in raw)
+    return (f"{cid} scl {L.dtype_tok(disk_dt)} {ks} {L.float_to_sf(slope, ks)} {ki} {L.float_to_sf(inter, ki)} "
+            f"{'-' if req is None else req} {len(raw)} {toks}")
+
+
+def run_bitexact(chk, R, W, rng, nib, targets):
+    """ArrayProxy._get_scaled / apply_read_scaling bit for bit: np.asarray(proxy), np.asarray(proxy, dtype=f32|f64),
+    img.get_fdata(dtype=...), dataobj[...] and random partial reads against the Flocq model (ModelS.v), for on-disk
+    u1/i1/u2/i2/i4/u4/i8/f4/f8 and random finite float32/float64/Python-float factors; result dtype independent of the index"""
+    from nibabel.arrayproxy import ArrayProxy
+    disk = ['u1', 'i2', 'i4', 'f4', 'f8', 'i1', 'u2', 'u4', 'i8']
+    plans = []
+    lines = []
+    nt = chk.n(140, 1200)
+    # --- direct proxies: any factor dtype
+    for rep in range(nt):
+        dt = np.dtype(disk[rep % len(disk)]).newbyteorder(rng.choice('<>'))
+        shape = tuple(rng.choice([1, 2, 3, 4]) for _ in range(rng.choice([1, 2, 3])))
+        n = int(np.prod(shape))
+        raw = rand_raw(rng, dt, n)
+        slope = rand_factor(rng, rng.choice(['py', 'f32', 'f32', 'f64', 'py32']))
+        inter = rand_factor(rng, rng.choice(['py', 'py', 'f32', 'f64', 'py32']))
+        off = rng.choice([0, 3, 16])
+        pth = os.path.join(W, f'bx_{rep}.bin')
+        with open(pth, 'wb') as f:
+            f.write(b'\x33' * off + raw.astype(dt).tobytes())
+        plans.append(dict(name=f'bx_{rep}', kind='direct', path=pth, dt=dt, shape=shape, raw=raw, slope=slope, inter=inter, off=off))
+    # --- files behind nib.load: the header's fields decide dtype and value of the factors
+    fmts = [(nib.Nifti1Image, 'nii1', 'py32', 'py32'), (nib.Nifti2Image, 'nii2', 'py', 'py'),
+            (nib.Spm99AnalyzeImage, 'spm99', 'f32', None), (nib.Spm2AnalyzeImage, 'spm2', 'py32', None), (nib.Nifti1Pair, 'nii1p', 'py32', 'py32')]
+    for rep in range(chk.n(40, 300)):
+        klass, nm, sk, ik = fmts[rep % len(fmts)]
+        dts = rng.choice(['u1', 'i2', 'i4', 'f4', 'f8'] if nm.startswith('nii') else ['u1', 'i2', 'i4', 'f4'])
+        endian = rng.choice('<>')
+        shape = tuple(rng.choice([1, 2, 3, 4]) for _ in range(3))
+        n = int(np.prod(shape))
+        raw = rand_raw(rng, dts, n)
+        slope = rand_factor(rng, sk)
+        while not np.isfinite(np.float32(slope) if nm != 'nii2' else slope) or float(slope) == 0.0:
+            slope = rand_factor(rng, sk)
+        inter = rand_factor(rng, ik) if ik else 0.0
+        base = os.path.join(W, f'bxf_{rep}')
+        hdr = klass.header_class(endianness=endian)
+        hdr.set_data_shape(shape)
+        hdr.set_data_dtype(dts)
+        try:
+            hdr.set_slope_inter(slope, inter)
+        except Exception:
+            continue
+        exts = dict(klass.files_types)
+        one = exts['image'] == exts.get('header', exts['image'])
+        off = (352 if klass is nib.Nifti1Image else 544) if one else 0
+        hdr.set_data_offset(off)
+        with open(base + exts.get('header', exts['image']), 'wb') as f:
+            hdr.write_to(f)
+            if one:
+                f.write(b'\0' * (off - f.tell()) + raw.astype(np.dtype(dts).newbyteorder(endian)).tobytes())
+        if not one:
+            with open(base + exts['image'], 'wb') as f:
+                f.write(raw.astype(np.dtype(dts).newbyteorder(endian)).tobytes())
+        # the factors NumPy will see, from the header bytes on disk: NIfTI/SPM2 -> Python floats, SPM99 slope -> float32 scalar
+        with open(base + exts.get('header', exts['image']), 'rb') as f:
+            hb = klass.header_class.from_fileobj(f)
+        fs, fi = hb.get_slope_inter()
+        if fs is None:
+            fs, fi = 1.0, 0.0
+        fs = np.float32(fs) if nm == 'spm99' else float(fs)
+        fi = 0.0 if fi is None else float(fi)
+        plans.append(dict(name=f'bxf_{rep}_{nm}', kind='file', klass=klass, path=base + exts['image'], dt=np.dtype(dts).newbyteorder(endian),
+                          shape=shape, raw=raw, slope=fs, inter=fi, off=off))
+    for i, pl in enumerate(plans):
+        for req in (None, 1, 2):
+            lines.append(scl_line(f'b{i}.{req}', pl['dt'], pl['slope'], pl['inter'], req, pl['raw']))
+    mod = run_model_parallel(PROP, lines)
+    nbad = 0
+
+    def bad(pl, what, model, impl):
+        nonlocal nbad
+        nbad += 1
+        chk.disagreements += 1
+        if nbad <= 4:
+            chk.violation('correspondence', case={'bitexact': pl['name'], 'disk_dtype': str(pl['dt']), 'shape': list(pl['shape']),
+                                                  'slope': [repr(pl['slope']), str(np.asanyarray(pl['slope']).dtype)],
+                                                  'inter': [repr(pl['inter']), str(np.asanyarray(pl['inter']).dtype)],
+                                                  'raw': [repr(v) for v in pl['raw'][:8].tolist()], 'what': what},
+                          model_output=model, impl_output=impl,
+                          predicate='BIT-LEVEL: the Flocq model of ArrayProxy._get_scaled / apply_read_scaling (ModelS.v) and the '
+                                    'implementation disagree on ' + what, found_input=True,
+                          theorem='correspondence C03/ModelS.v <-> volumeutils.apply_read_scaling / ArrayProxy._get_scaled')
+
+    def show(a):
+        a = np.asarray(a)
+        return f'{a.dtype} ' + ' '.join(float(v).hex() if a.dtype.kind == 'f' else str(v) for v in a.ravel(order="F")[:6].tolist())
+
+    for i, pl in enumerate(plans):
+        m = {req: L.parse_model_array(mod.get(f'b{i}.{req}', '')) for req in (None, 1, 2)}
+        mmap = rng.choice(MMAPS)
+        with warnings.catch_warnings(), np.errstate(all='ignore'):
+            warnings.simplefilter('ignore')
+            if pl['kind'] == 'direct':
+                p = ArrayProxy(pl['path'], (pl['shape'], pl['dt'], pl['off'], pl['slope'], pl['inter']), mmap=mmap)
+                img = None
+            else:
+                img = pl['klass'].from_filename(pl['path'], mmap=mmap)
+                p = img.dataobj
+                if (L.fid_of(p.slope), L.fid_of(p.inter)) != (L.fid_of(pl['slope']), L.fid_of(pl['inter'])) or \
+                        float(p.slope) != float(pl['slope']) or float(p.inter) != float(pl['inter']):
+                    bad(pl, 'the factors the proxy holds vs the header fields', f"{pl['slope']!r} {pl['inter']!r}", f'{p.slope!r} {p.inter!r}')
+                    continue
+            chk.count(key=('bitexact', pl['name']), tag='G9:bitexact:' + pl['kind'])
+            chk.tagc('G9:disk:' + str(np.dtype(pl['dt']).newbyteorder('=')))
+            chk.tagc('G9:slope-dtype:' + str(np.asanyarray(pl['slope']).dtype) + ',inter:' + str(np.asanyarray(pl['inter']).dtype))
+            try:
+                full = np.asarray(p)
+            except ValueError as e:
+                full = None
+                if m[None] is not None:
+                    bad(pl, 'np.asarray(proxy) raised', show(m[None]), repr(e)[:100])
+                else:
+                    chk.refusal('scaling_overflow')
+                continue
+            if m[None] is None:
+                bad(pl, 'np.asarray(proxy): the model says int_scinter_ftype overflows', 'err overflow', show(full))
+                continue
+            mfull = m[None].reshape(pl['shape'], order='F')
+            chk.tagc('G9:result:' + str(full.dtype.newbyteorder('=')))
+            if not L.same_bits(full, mfull):
+                bad(pl, 'np.asarray(proxy)', show(mfull), show(full))
+                continue
+            for req, ft in ((1, np.float32), (2, np.float64)):
+                got = np.asarray(p, dtype=ft)
+                if not L.same_bits(got, m[req].reshape(pl['shape'], order='F')):
+                    bad(pl, f'np.asarray(proxy, dtype={np.dtype(ft)})', show(m[req]), show(got))
+                if img is not None:
+                    gf = img.get_fdata(dtype=ft, caching='unchanged')
+                    if not L.same_bits(gf, m[req].reshape(pl['shape'], order='F')):
+                        bad(pl, f'img.get_fdata(dtype={np.dtype(ft)})', show(m[req]), show(gf))
+            # dataobj[...] vs np.asarray, and the dtype of every partial read
+            ell = p[...]
+            if not L.same_bits(ell, full):
+                chk.violation('property_violation', case={'bitexact': pl['name'], 'ix': 'e'}, predicate='proxy[...] differs bitwise from np.asarray(proxy) '
+                              f'({show(ell)} vs {show(full)})')
+        # partial reads through the ordinary machinery: values = model_full[element index], compared bit for bit
+        spec = dict(kind='ap', shape=tuple(pl['shape']), raw=pl['raw'], order='F', fac_of_elem=np.zeros(len(pl['raw']), int), slopes=[1.0], inters=[0.0],
+                    w=np.dtype(pl['dt']).itemsize, off=pl['off'], dtype=pl['dt'], one_file=True, model_full=m[None])
+        if pl['kind'] == 'direct':
+            def build(t, cfg, pl=pl):
+                return ArrayProxy(pl['path'], (pl['shape'], pl['dt'], pl['off'], pl['slope'], pl['inter']), mmap=cfg[0], keep_file_open=cfg[1]), []
+        else:
+            def build(t, cfg, pl=pl):
+                return pl['klass'].from_filename(pl['path'], mmap=cfg[0], keep_file_open=cfg[1]).dataobj, []
+        t = Target(pl['name'], spec, {'plain': pl['path']}, build, comps=('plain',), mmaps=(True, False), kfos=(True, False), srcs=('path',))
+        t.exp = m[None]
+        t.gen = {'g': 'bitexact', 'name': pl['name']}
+        targets.append(t)
+        for j in range(chk.n(12, 40)):
+            ix = rand_index(rng, pl['shape'], bad=0.0) if j else tuple(0 for _ in pl['shape'])
+            R.case(t, t.cfgs[(i + j) % len(t.cfgs)], ix, 'G9:bitexact-partial-read')
+    # --- AFNI / PAR-REC / ECAT with non-dyadic factors: one model line per factor group
+    others = []
+    for rep in range(chk.n(2, 8)):
+        facs = [round(rng.uniform(0.0005, 30.0), 6) for _ in range(3)]
+        if rep % 2:
+            facs[1] = 0.0
+        shape = tuple(rng.choice([1, 2, 3]) for _ in range(3)) + (3,)
+        ddt = ['<i2', 'u1', '<f4'][rep % 3]
+        head, brik, spec = L.write_afni(os.path.join(W, f'bxafni_{rep}'), shape, facs, dtype=ddt, salt=rep)
+        spec['raw'] = rand_raw(rng, ddt, len(spec['raw']))
+        with open(brik, 'wb') as f:
+            f.write(np.asarray(spec['raw']).astype(ddt).tobytes())
+        m3 = int(np.prod(shape[:3]))
+        groups = [(f"afe {L.dtype_tok(ddt)} {L.float_to_sf(1.0 if v == 0 else v, 2)}", slice(j * m3, (j + 1) * m3)) for j, v in enumerate(facs)]
+
+        def build(t, cfg, head=head, brik=brik):
+            from nibabel.brikhead import AFNIImage
+            from nibabel.fileholders import FileHolder
+            return AFNIImage.from_file_map({'header': FileHolder(head), 'image': FileHolder(brik)}, mmap=cfg[0], keep_file_open=cfg[1]).dataobj, []
+        others.append((f'bxafni_{rep}', spec, groups, build, brik))
+    from nibabel.parrec import PARRECImage
+    for rep in range(chk.n(2, 8)):
+        shape = (rng.choice([2, 3]), rng.choice([2, 3]), 3, 2)
+        scaling = ['dv', 'fp'][rep % 2]
+        par, rec, spec = L.write_parrec(os.path.join(W, f'bxpar_{rep}'), shape, ['shuffled', 'sorted'][rep % 2], rng, scaling=scaling, nondyadic=True)
+        spec['raw'] = rand_raw(rng, '<u2', len(spec['raw']))
+        with open(rec, 'wb') as f:
+            f.write(np.asarray(spec['raw']).tobytes())
+        m2 = spec['m']
+        # the factors as get_data_scaling computes them (float64 arithmetic on the parsed header values)
+        rs, ri, ss = (np.array(spec[k], dtype=np.float64) for k in ('rs', 'ri', 'ss'))
+        sl, it = (rs, ri) if scaling == 'dv' else (1.0 / ss, ri / (rs * ss))
+        groups = [(f"pre I0:16 {L.float_to_sf(sl[k], 2)} {L.float_to_sf(it[k], 2)}", slice(k * m2, (k + 1) * m2)) for k in range(spec['nrec'])]
+
+        def build(t, cfg, par=par, scaling=scaling):
+            return PARRECImage.from_filename(par, mmap=cfg[0], scaling=scaling).dataobj, []
+        others.append((f'bxpar_{rep}_{scaling}', spec, groups, build, rec))
+    from nibabel.ecat import EcatImage
+    for rep in range(chk.n(2, 6)):
+        fs, nfr = (rng.choice([2, 3]), rng.choice([2, 3]), 2), 3
+        pth, _, spec = L.write_ecat(os.path.join(W, f'bxecat_{rep}.v'), fs, nfr, rng, nondyadic=True)
+        m3 = int(np.prod(fs))
+        groups = [(f"ece I1:16 {L.float_to_sf(spec['calib'], 2)} {L.float_to_sf(spec['sfacs'][j], 2)}", slice(j * m3, (j + 1) * m3)) for j in range(nfr)]
+
+        def build(t, cfg, pth=pth):
+            return EcatImage.load(pth).dataobj, []
+        others.append((f'bxecat_{rep}', spec, groups, build, pth))
+    from nibabel.minc1 import Minc1Image
+    from nibabel.minc2 import Minc2Image
+    for rep in range(chk.n(6, 24)):
+        ver = 1 + rep % 2
+        shape = tuple(rng.choice([1, 2, 3]) for _ in range(3))
+        ns = rep % 3
+        code, ddt = [('h', '>i2'), ('b', 'i1'), ('i', '>i4')][(rep // 2) % 3] if ver == 1 else ('h', ['<i2', 'u1', '<i4'][(rep // 2) % 3])
+        vr = rng.choice([(0.0, 4095.0), (-100.0, 100.0), (float(np.iinfo(ddt).min), float(np.iinfo(ddt).max))])
+        if vr[0] < np.iinfo(ddt).min or vr[1] > np.iinfo(ddt).max:
+            vr = (float(np.iinfo(ddt).min), float(np.iinfo(ddt).max))
+        nl = int(np.prod(shape[:ns])) if ns else 1
+        imin = np.array([rng.uniform(-50, 50) for _ in range(nl)])
+        imax = imin + np.array([10 ** rng.uniform(-3, 4) for _ in range(nl)])
+        raw = rand_raw(rng, ddt, int(np.prod(shape)))
+        if vr[1] - vr[0] < 1000:            # keep most values inside the valid range, some outside (clipped)
+            raw = np.where(np.arange(raw.size) % 3 == 0, raw, (raw.astype(np.int64) % 150 - 75)).astype(ddt)
+        pth = os.path.join(W, f'bxminc{ver}_{rep}.mnc')
+        if ver == 1:
+            _, _, spec = L.write_minc1(pth, shape, ns, raw=raw, factors=(imin, imax), vr=vr, code=code)
+        else:
+            _, _, spec = L.write_minc2(pth, shape, ns, dtype=ddt, raw=raw, factors=(imin, imax), vr=vr)
+        m_ = int(np.prod(shape[ns:])) if ns else int(np.prod(shape))
+        f64 = lambda x: L.float_to_sf(float(x), 2)
+        groups = [(f"mne {L.dtype_tok(ddt)} {f64(vr[0])} {f64(vr[1])} {f64(imin[j])} {f64(imax[j])}", slice(j * m_, (j + 1) * m_)) for j in range(nl)]
+        klass = Minc1Image if ver == 1 else Minc2Image
+
+        def build(t, cfg, pth=pth, klass=klass):
+            return klass.from_filename(pth).dataobj, []
+        others.append((f'bxminc{ver}_{rep}', spec, groups, build, pth))
+    olines = []
+    for oi, (name, spec, groups, build, pth) in enumerate(others):
+        raw = np.asarray(spec['raw'])
+        for gi_, (head_, sl_) in enumerate(groups):
+            vals_ = raw[sl_]
+            olines.append(f"o{oi}.{gi_} {head_} {len(vals_)} " + ' '.join(L.val_tok(v, raw.dtype) for v in vals_))
+    omod = run_model_parallel(PROP, olines)
+    for oi, (name, spec, groups, build, pth) in enumerate(others):
+        parts = [L.parse_model_array(omod.get(f'o{oi}.{gi_}', '')) for gi_ in range(len(groups))]
+        if any(x is None for x in parts):
+            chk.disagreements += 1
+            chk.violation('correspondence', case={'bitexact': name}, model_output=str([omod.get(f'o{oi}.{g}', '')[:60] for g in range(len(groups))]),
+                          predicate='element-arithmetic model did not answer', found_input=False, theorem='C03/ModelS.v')
+            continue
+        spec = dict(spec, model_full=np.concatenate(parts))
+        comps = ('plain',)
+        t = Target(name, spec, {'plain': pth}, build, comps=comps, mmaps=(True, False), kfos=((True, False) if spec['kind'] == 'afni' else (None,)), srcs=('path',))
+        if spec['kind'] == 'parrec':        # output element e of the array is REC element ind[e // m] * m + e % m
+            e_ = np.arange(int(np.prod(spec['shape'])))
+            t.exp = spec['model_full'][np.asarray(spec['ind'])[e_ // spec['m']] * spec['m'] + e_ % spec['m']]
+        else:
+            t.exp = spec['model_full']
+        t.gen = {'g': 'bitexact-' + spec['kind'], 'name': name}
+        targets.append(t)
+        chk.count(key=('bitexact', name), tag='G9:bitexact:' + spec['kind'])
+        for j in range(chk.n(25, 80)):
+            ix = rand_index(rng, spec['shape'], bad=0.0) if j > 1 else [(), tuple(0 for _ in spec['shape'])][j]
+            R.case(t, t.cfgs[(oi + j) % len(t.cfgs)], ix, 'G9:bitexact-partial-read:' + spec['kind'])
+    chk.extra['bitexact_targets'] = len(plans) + len(others)
+    chk.extra['bitexact_mismatches'] = nbad
 
 
 def reshape_file(W):
